@@ -140,6 +140,60 @@ func c13Setup(w *World) error {
 	return nil
 }
 
+// c13RedeploySameTarget: a service is redeployed onto the SAME target with one option changed (header forwarding on /
+// off, prefix stripping on / off): the next request must be treated according to the new deployment.
+func c13RedeploySameTarget(w *World) []Violation {
+	var vs []Violation
+	add := func(sig, d string) { vs = append(vs, Violation{"C13", sig, "redeploy onto the same target: " + d}) }
+	w.AddTarget("t8:80")
+	seen := func(marker string) *memnet.Event {
+		evs := w.Net.Events()
+		for i := len(evs) - 1; i >= 0; i-- {
+			if evs[i].Kind == "req" && evs[i].Header.Get("X-Verif-Marker") == marker {
+				return &evs[i]
+			}
+		}
+		return nil
+	}
+	step := 0
+	for _, fwd := range []bool{false, true, false, true} {
+		for _, strip := range []bool{true, false} {
+			step++
+			a := deployArgs("svc8", []string{"t8:80"}, []string{"m8.example.com"}, []string{"/app"})
+			a.ServiceOptions.StripPrefix = strip
+			a.ServiceOptions.TLSEnabled = false
+			a.TargetOptions.ForwardHeaders = fwd
+			if r := w.Deploy(a); r.Err != nil {
+				add("redeploy-failed", r.Err.Error())
+				return vs
+			}
+			mk := fmt.Sprintf("mk8-%d-%d", c13seq, step)
+			w.Do(ReqSpec{ID: mk, Host: "m8.example.com", Path: "/app/x", Header: [][2]string{{"X-Forwarded-For", "10.66.66.66"}, {"X-Forwarded-Proto", "https"}, {"X-Forwarded-Host", "spoofed.example.com"}, {"X-Verif-Marker", mk}}})
+			ev := seen(mk)
+			if ev == nil {
+				add("request-not-forwarded", fmt.Sprintf("step %d", step))
+				continue
+			}
+			wantFor, wantProto, wantHost := "192.0.2.7", "http", "m8.example.com"
+			if fwd {
+				wantFor, wantProto, wantHost = "10.66.66.66, 192.0.2.7", "https", "spoofed.example.com"
+			}
+			if g := strings.Join(ev.Header["X-Forwarded-For"], ", "); g != wantFor || ev.Header.Get("X-Forwarded-Proto") != wantProto || ev.Header.Get("X-Forwarded-Host") != wantHost {
+				add(fmt.Sprintf("x-forwarded-for fwd=%v after-redeploy-of-same-target", fwd), fmt.Sprintf("step %d: target saw For=%q Proto=%q Host=%q, the deployment in force says forwarding=%v", step, g, ev.Header.Get("X-Forwarded-Proto"), ev.Header.Get("X-Forwarded-Host"), fwd))
+			}
+			wantURI := "/app/x"
+			if strip {
+				wantURI = "/x"
+			}
+			if ev.URI != wantURI {
+				add("strip-setting-not-applied-after-redeploy-of-same-target", fmt.Sprintf("step %d: target saw %q, expected %q (strip=%v)", step, ev.URI, wantURI, strip))
+			}
+		}
+	}
+	c13seq++
+	return vs
+}
+
 // c13Concurrent: two requests of one service that matched different prefixes overlap (held by a pause, or one of
 // them uploading slowly into the request buffer); each must reach the target with its own prefix removed.
 func c13Concurrent(kind string) func(w *World) []Violation {
@@ -532,6 +586,7 @@ func c13Cases(tier string) []ECase {
 	for _, k := range []string{"held-by-pause", "slow-buffered-upload"} {
 		cases = append(cases, ECase{Name: "concurrent " + k, Class: "concurrent " + k, Run: c13Concurrent(k)})
 	}
+	cases = append(cases, ECase{Name: "redeploy onto the same target with forwarding / stripping flipped", Class: "redeploy-same-target", Run: c13RedeploySameTarget})
 	for _, in := range ins {
 		in := in
 		cases = append(cases, ECase{Name: in.name(), Class: fmt.Sprintf("%s %s hdr=%d body=%s resp=%s fwd=%v", c13Mounts[in.mount].name, in.method, in.hdr, in.body, in.resp, in.fwd), Run: c13Run(in)})
@@ -544,7 +599,7 @@ func checkC13(t *testing.T, job *Job, res *Result) {
 	if job.Replay != nil {
 		tier = job.Replay.Tier
 	}
-	res.Rule = "requests built from raw bytes through Server.buildHandler -> router -> service -> target -> real http.Transport -> in-memory echo target; core = every path of <=3 (thorough <=4) segments over {a, a%2Fb, %41, a%20b, app, empty, ;p=1, a+b, %E2%82%AC} with and without trailing slash x 5 mounts (/, /app stripped, /app unstripped, /app/v2 beside /app, / with request+response buffering) x 8 raw queries, other dimensions rotating; look-alike paths; methods x bodies (none, 1B, 70kB, 70kB chunked) x 10 responses (incl. 103 early hints, target's own 503) x 7 header sets x header forwarding on/off; oracle: wire request and client response compared byte for byte with what was sent; plus two overlapping requests of one service mounted on two stripped prefixes (both held by a pause; one uploading slowly into the request buffer)"
+	res.Rule = "requests built from raw bytes through Server.buildHandler -> router -> service -> target -> real http.Transport -> in-memory echo target; core = every path of <=3 (thorough <=4) segments over {a, a%2Fb, %41, a%20b, app, empty, ;p=1, a+b, %E2%82%AC} with and without trailing slash x 5 mounts (/, /app stripped, /app unstripped, /app/v2 beside /app, / with request+response buffering) x 8 raw queries, other dimensions rotating; look-alike paths; methods x bodies (none, 1B, 70kB, 70kB chunked) x 10 responses (incl. 103 early hints, target's own 503) x 7 header sets x header forwarding on/off; oracle: wire request and client response compared byte for byte with what was sent; plus two overlapping requests of one service mounted on two stripped prefixes (both held by a pause; one uploading slowly into the request buffer); a service redeployed 8 times onto the same target with header forwarding and prefix stripping flipped"
 	res.Bounds = "path segments<=3 quick / <=4 thorough; full product of the path x mount x query core"
 	runE(t, job, res, &ESpec{Prop: "C13", Setup: c13Setup, Cases: c13Cases(tier), Batch: 400})
 }
